@@ -415,3 +415,112 @@ func genC32Case(r *verifx.Rng) c32Case {
 	}
 	return c
 }
+
+// ---- configuration glue: what is written at the command-line and environment layers ----
+
+// c32_genRawList writes a raw list value and returns the networks it validly names.
+func c32_genRawList(r *verifx.Rng) (string, []c32Net) {
+	switch x := r.Intn(20); {
+	case x < 1:
+		return "", nil
+	case x < 2:
+		return verifx.Pick(r, []string{" ", "\t", "  "}), nil
+	case x < 4:
+		return verifx.Pick(r, []string{",", ", ,", " ,", ",,", " , , "}), nil
+	}
+	n := 1 + r.Intn(3)
+	var items []string
+	var nets []c32Net
+	for i := 0; i < n; i++ {
+		if r.Chance(1, 5) {
+			items = append(items, c32_genBadCidr(r))
+		} else {
+			nt := c32_genNet(r)
+			nets = append(nets, nt)
+			items = append(items, c32_fmtNet(r, nt))
+		}
+	}
+	sep := verifx.Pick(r, []string{",", ", ", " , ", ",,", " ,"})
+	raw := strings.Join(items, sep)
+	if r.Chance(1, 6) {
+		raw = verifx.Pick(r, []string{",", " ", ""}) + raw + verifx.Pick(r, []string{",", " ", ", "})
+	}
+	return raw, nets
+}
+
+func genC32SettingsCase(r *verifx.Rng) c32Case {
+	st := &c32Settings{}
+	var nets []c32Net
+	// trust switch: mostly on somewhere
+	switch x := r.Intn(10); {
+	case x < 4:
+		b := true
+		st.cliTrust = &b
+	case x < 7:
+		v := verifx.Pick(r, []string{"true", "1", "t", "TRUE", "True", "T"})
+		st.envTrust = &v
+	case x < 8:
+		b := r.Chance(1, 2)
+		st.cliTrust = &b
+		v := verifx.Pick(r, []string{"true", "false", "0", "1", "yes", "no", "on", "f", " true"})
+		st.envTrust = &v
+	case x < 9:
+		b := false
+		st.cliTrust = &b
+	}
+	// the list: command line only / environment only / both / neither
+	switch x := r.Intn(10); {
+	case x < 4:
+		raw, n := c32_genRawList(r)
+		st.cliList = &raw
+		nets = append(nets, n...)
+	case x < 6:
+		raw, n := c32_genRawList(r)
+		if raw != "" {
+			st.envList = &raw
+		}
+		nets = append(nets, n...)
+	case x < 9:
+		raw, n := c32_genRawList(r)
+		st.cliList = &raw
+		nets = append(nets, n...)
+		raw2, n2 := c32_genRawList(r)
+		if raw2 != "" || r.Chance(1, 2) {
+			st.envList = &raw2 // "" in the environment = unset
+		}
+		nets = append(nets, n2...)
+	}
+	c := c32Case{settings: st}
+	pool := []c32Addr{c32V4(0xC6336407), c32V4(0x0A010203), c32V4(0xC0000205), {0x20010db800000000, 7}}
+	for _, n := range nets {
+		pool = append(pool, n.inside(r), n.justOutside(r))
+	}
+	nReq := 3 + r.Intn(5)
+	for i := 0; i < nReq; i++ {
+		var peer c32Addr
+		switch x := r.Intn(10); {
+		case x < 5 && len(nets) > 0:
+			peer = verifx.Pick(r, nets).inside(r)
+		case x < 8 && len(nets) > 0:
+			peer = verifx.Pick(r, nets).justOutside(r)
+		default:
+			peer = verifx.Pick(r, pool)
+		}
+		port := fmt.Sprintf("%d", 1+r.Intn(65535))
+		s := c32_fmtAddr(r, peer)
+		ra := s + ":" + port
+		if strings.Contains(s, ":") {
+			ra = "[" + s + "]:" + port
+		}
+		rq := c32Req{tls: r.Chance(1, 4), remoteAddr: ra}
+		rq.xff = []string{c32_genFwdValue(r, pool)}
+		if r.Chance(1, 2) {
+			rq.xfp = []string{c32_genProto(r)}
+		}
+		if r.Chance(1, 6) {
+			rq.cf = []string{c32_fmtAddr(r, verifx.Pick(r, pool))}
+		}
+		c.reqs = append(c.reqs, rq)
+	}
+	return c
+}
